@@ -151,7 +151,39 @@ def service_oracle(ctx, case):
                 fails.append(("annualised_cost_law", f"{rec}: annualised cost {TC}, capital x CRF = {cc * crf}", None))
         elif math.isfinite(A) and A > 0 and N <= 0:
             fails.append(("units_positive", f"{rec}: area {A} but {N} units", None))
+        # exchanger count by its definition (Euler: streams present + utilities carrying duty - 1 in each region the pinch
+        # separates), judged where the regions are unambiguous: default utilities only, one pinch or a threshold problem
+        if not case["problem"]["utilities"] and math.isfinite(N):
+            want_n = euler_units(z, t)
+            if want_n is not None:
+                ctx.dist["units_judged"] += 1
+                if int(round(N)) != want_n:
+                    fails.append(("units_by_definition", f"{rec}: {int(round(N))} units reported, Euler count {want_n}", None))
     return fails, k
+
+
+def euler_units(z, t):
+    """Minimum number of units of a zone served by the two default utilities only: (streams above the pinch + hot
+    utility if it carries duty - 1) + (streams below + cold utility if it carries duty - 1); one region for a threshold
+    problem. None where the regions are not unambiguous (several pinches, a stream end within 1e-3 K of the pinch)."""
+    qh = sum(float(u.heat_flow) for u in t.hot_utilities); qc = sum(float(u.heat_flow) for u in t.cold_utilities)
+    if len(list(t.hot_utilities)) > 1 or len(list(t.cold_utilities)) > 1:
+        return None
+    ss = [(float(x.t_min_star), float(x.t_max_star)) for x in list(z.hot_streams) + list(z.cold_streams)]
+    nh, nc = (1 if qh > 1e-6 else 0), (1 if qc > 1e-6 else 0)
+    if qh <= 1e-6 or qc <= 1e-6:
+        if qh <= 1e-6 and qc <= 1e-6:
+            return None
+        hp, cp = getattr(t, "hot_pinch", None), getattr(t, "cold_pinch", None)
+        return len(ss) + nh + nc - 1
+    hp, cp = t.hot_pinch, t.cold_pinch
+    if hp is None or cp is None or abs(float(hp) - float(cp)) > 1e-9:
+        return None
+    tp = float(hp)
+    if any(abs(a - tp) < 1e-3 and abs(b - tp) < 1e-3 for a, b in ss):
+        return None
+    above = sum(1 for a, b in ss if b > tp + 1e-6); below = sum(1 for a, b in ss if a < tp - 1e-6)
+    return (above + nh - 1) + (below + nc - 1)
 
 
 def run(ctx: Ctx):
